@@ -373,7 +373,10 @@ def scenario_scene(s, pad=0, field_det=False):
         objs.append(det)
         if field_det:
             fd = fdtdx.FieldDetector(name="fd", partial_grid_shape=(win, win, 1), dtype=jnp.float64)
-            cons.append(fd.place_at_center(vol))
+            # z index fixed explicitly: centring a 1-cell object in an even-sized volume hits a half-integer that is
+            # rounded to even (13.5 -> 13 but 37.5 -> 38), which would shift the plane between scenario and reference
+            cons.append(fd.place_at_center(vol, axes=(0, 1)))
+            cons.append(fd.set_grid_coordinates(axes=2, sides="-", coordinates=s["n"] // 2 + pad))
             objs.append(fd)
         return objs, cons
     spec = {k: th for k in Y.FACES}
